@@ -311,6 +311,11 @@ func runC11(c *Ctx) {
 		}
 	}
 
+	// ------------------------------------------------------------- D7 pointers a JSON decoder may reset
+	c.Rule("C11-D7", "a pointer handed to a JSON decoder BY ADDRESS (`json.Unmarshal(b, &p)` with p itself a pointer) can come back nil — the JSON literal `null` resets it without an error — so every dereference of p after the call "+
+		"lies under a nil test of p; in the Engine.IO layer and its transports these decoders read what the peer sent (handshake and OPEN payloads); every decoder call of these packages is an instance (today none receives a pointer by address)", 3)
+	nilAfterUnmarshal(c, "C11-D7", map[string]bool{"eio": true, "eioparser": true, "polling": true, "websocket": true, "webtransport": true, "transport": true})
+
 	// ------------------------------------------------------------- D6 complete reads
 	c.Rule("C11-D6", "frames are read completely: the payload buffer of DecodeWithLen and every header buffer of the WebTransport reader are filled with io.ReadFull (whose error is tested), never with a single Read "+
 		"— a stream that delivers a frame in several chunks would otherwise yield a zero-padded packet and lose frame synchronisation", 4)
@@ -988,4 +993,79 @@ func c11EncodedLen(c *Ctx) {
 			}
 		}
 	}
+}
+
+// nilAfterUnmarshal: see rule C11-D7.
+func nilAfterUnmarshal(c *Ctx, rule string, shorts map[string]bool) {
+	p := c.P
+	nCalls := 0
+	for _, fn := range pkgFuncs(p, shorts) {
+		for _, cs := range Calls(fn) {
+			name := cs.Name
+			if !(strings.HasSuffix(name, ".Unmarshal") || strings.HasSuffix(name, ".Decode") || strings.HasSuffix(name, "Unmarshal")) {
+				continue
+			}
+			c.Ob(rule, FuncName(fn)+"/"+shortCallee(name)+"/examined", cs.Pos(), true, "decoder call examined")
+			for _, a := range cs.Common().Args {
+				v := a
+				if mi, ok := v.(*ssa.MakeInterface); ok {
+					v = mi.X
+				}
+				al, ok := v.(*ssa.Alloc)
+				if !ok {
+					continue
+				}
+				if _, isPtr := deref(al.Type()).Underlying().(*types.Pointer); !isPtr {
+					continue // &structValue, &slice, …: cannot be reset to a nil pointer
+				}
+				nCalls++
+				// every dereference of *al that the call can reach needs a nil test
+				if al.Referrers() == nil {
+					continue
+				}
+				for _, r := range *al.Referrers() {
+					ld, isLd := r.(*ssa.UnOp)
+					if !isLd || ld.Op != token.MUL || ld.Referrers() == nil {
+						continue
+					}
+					if reach, _ := CanReachAvoiding(fn, cs.Instr, func(in ssa.Instruction) bool { return in == ssa.Instruction(ld) }, nil); !reach {
+						continue
+					}
+					for _, use := range *ld.Referrers() {
+						isDeref := false
+						switch u := use.(type) {
+						case *ssa.FieldAddr:
+							isDeref = u.X == ssa.Value(ld)
+						case *ssa.UnOp:
+							isDeref = u.Op == token.MUL && u.X == ssa.Value(ld)
+						case *ssa.IndexAddr:
+							isDeref = u.X == ssa.Value(ld)
+						}
+						if !isDeref {
+							continue
+						}
+						guarded := false
+						for _, g := range Guards(use) {
+							bo, isB := g.Cond.(*ssa.BinOp)
+							if !isB {
+								continue
+							}
+							k, isK := bo.Y.(*ssa.Const)
+							if !isK || k.Value != nil {
+								continue
+							}
+							if l2, isL := bo.X.(*ssa.UnOp); isL && l2.X == ssa.Value(al) {
+								if (bo.Op == token.NEQ && g.Val) || (bo.Op == token.EQL && !g.Val) {
+									guarded = true
+								}
+							}
+						}
+						c.Ob(rule, FuncName(fn)+"/"+vname(al)+"-dereferenced-after-"+shortCallee(name), use.Pos(), guarded,
+							"`"+vname(al)+"` is passed to "+name+" by address (a pointer to a pointer): the JSON literal null sets it to nil without an error, and it is dereferenced here without a nil test — a few bytes from the peer panic this goroutine")
+					}
+				}
+			}
+		}
+	}
+	c.Note("%s: %d decoder calls receive the address of a pointer variable", rule, nCalls)
 }
